@@ -864,8 +864,13 @@ func (runInfo *runInfoStruct) runDefers() {
 	for i := len(defers) - 1; i >= 0; i-- {
 		runInfo.err = nil
 		runInfo.callDeferredFunc(defers[i])
-		if runInfo.err != nil && (err == nil || err == ErrReturn) {
-			err = runInfo.err
+		if runInfo.err != nil {
+			if err == nil || err == ErrReturn {
+				err = runInfo.err
+			} else if runInfo.ctx.Err() != nil {
+				// the deferred call was interrupted: the error the run already had does not hide the interruption
+				err = ErrInterrupt
+			}
 		}
 	}
 	runInfo.rv = rv
